@@ -842,16 +842,29 @@ def r17_10(rep: Report) -> None:
                 want = norm(subst_locals(fn, E, allow_calls=True))
                 ok_ = True
                 got = ''
+                changed_between = None
                 for c in ctors:
                     vals = [norm(subst_locals(fn, k.value, allow_calls=True)) for k in c.keywords if k.arg == kw]
                     for k in c.keywords:
                         if k.arg is None:
-                            d = norm(k.value)
-                            vals += [f"{d}['{kw}']", f'{d}["{kw}"]', f"{d}.get('{kw}')"]
+                            for d in {norm(k.value), norm(subst_locals(fn, k.value, allow_calls=True))}:
+                                vals += [f"{d}['{kw}']", f'{d}["{kw}"]', f"{d}.get('{kw}')"]
+                                # the entry must still be what the lookup read: no store to it in between
+                                for st_ in ast.walk(fn):
+                                    if isinstance(st_, (ast.Assign, ast.AugAssign)) and order[id(a)] < order.get(id(st_), -1) < order[id(c)]:
+                                        for t_ in (st_.targets if isinstance(st_, ast.Assign) else [st_.target]):
+                                            if norm(t_) in (f"{d}['{kw}']", f'{d}["{kw}"]') or norm(t_) == d:
+                                                changed_between = st_
                     got = vals[0] if vals else '(not given)'
                     if want not in vals and norm(E) not in vals:
                         ok_ = False
-                if ok_:
+                if ok_ and changed_between is not None:
+                    rep.fail(rid, construct, key,
+                             f'the row to replace is looked up with `{kw}={want[:60]}`, then `{norm(changed_between)[:70]}` changes '
+                             f'that value before the new {model.split(".")[-1]} is created with it: lookup and creation use different '
+                             'values whenever the later assignment applies (an alias field of the request) - the wrong row is '
+                             'deleted, or the old row stays and the insert violates the unique constraint', changed_between)
+                elif ok_:
                     rep.ok(rid, construct, key, f'both use `{want[:60]}`')
                 else:
                     rep.fail(rid, construct, key,
